@@ -813,3 +813,182 @@ Proof.
   - repeat constructor; cbn [fst snd]; try (vm_compute; intuition discriminate).
   - vm_compute. reflexivity.
 Qed.
+
+(* ------------------------------------------------------------ nothing fails: the model of RatesCache.v *)
+(* With the environment in which no operation fails ([no_fail e]) the
+   failure-path machine is the machine of Model/RatesCache.v (code after the
+   fix, reval = true): same outcome, same loader state and cache, same
+   answers (errors embedded by [lift_err]). *)
+Definition sim {A B} (f : A -> B) (x : res (st * A)) (y : res (fstate * B)) : Prop :=
+  match x, y with
+  | Ok (s, a), Ok (fs, b) => f_s fs = s /\ b = f a
+  | Rej r, Rej r' => r = r'
+  | Panic p, Panic p' => p = p'
+  | _, _ => False
+  end.
+
+Lemma sim_bind {A B A' B'} (f : A -> B) (g : A' -> B') x y
+      (k : st * A -> res (st * A')) (k' : fstate * B -> res (fstate * B')) :
+  sim f x y ->
+  (forall s a fs, f_s fs = s -> sim g (k (s, a)) (k' (fs, f a))) ->
+  sim g (bind x k) (bind y k').
+Proof.
+  destruct x as [[s a] | r | p]; destruct y as [[fs b] | r' | p']; cbn [sim bind]; try contradiction.
+  - intros [E ->] H. apply H. exact E.
+  - intros -> _. reflexivity.
+  - intros -> _. reflexivity.
+Qed.
+
+Definition lift_sum {A} (r : sum lerr A) : sum ferr A := lift_ans r.
+
+Lemma download_sim e fs y :
+  sim (fun rates : list drate => @inr ferr _ rates) (download e (f_s fs) y) (downloadF (no_fail e) fs y).
+Proof.
+  unfold download, downloadF. cbn [no_fail fe_rq fe_wr fe_env].
+  destruct (parse_all (e_remote e y)) as [rs | r | p]; cbn [bind sim]; auto.
+Qed.
+
+Lemma fetch_sim e fs d :
+  sim lift_sum (fetch e (f_s fs) d) (fetchF (no_fail e) fs d).
+Proof.
+  assert (Hdl : forall fs0, f_s fs0 = f_s fs ->
+            sim lift_sum ('(s1, rates) <- download e (f_s fs) (year_of d) ;; Ok (s1, @inr lerr _ rates))
+                (downloadF (no_fail e) fs0 (year_of d))).
+  { intros fs0 E. rewrite <- E. pose proof (download_sim e fs0 (year_of d)) as S.
+    destruct (download e (f_s fs0) (year_of d)) as [[s1 rates] | r | p];
+      destruct (downloadF (no_fail e) fs0 (year_of d)) as [[fs1 b] | r' | p']; cbn [sim bind] in *; try contradiction; auto. }
+  unfold fetch, fetchF. cbn [no_fail fe_env fe_rd].
+  destruct (e_force e); [apply Hdl; reflexivity | ].
+  cbn [read_cache_ev].
+  destruct (aget (year_of d) (s_cache (f_s fs))) as [rates |]; cbn [option_map].
+  - rewrite keep_rows_nil.
+    destruct (zmem (year_of d) (s_fresh (f_s fs))); [cbn [sim]; auto | ].
+    destruct (mhas d rates); [cbn [sim]; auto | apply Hdl; reflexivity].
+  - destruct (zmem (year_of d) (s_fresh (f_s fs))); [cbn [sim]; auto | apply Hdl; reflexivity].
+Qed.
+
+Lemma exact_sim e fs d :
+  sim lift_sum (exact true e (f_s fs) d) (exactF (no_fail e) fs d).
+Proof.
+  unfold exact, exactF. cbn [andb].
+  assert (Htail : forall s (m : list drate) fs0, f_s fs0 = s ->
+    sim lift_sum
+      (match mget d m with
+       | Some r => if Qceqb r 0%Qc then Ok (s, inr None) else Ok (s, inr (Some (d, r)))
+       | None => if e_today e <=? d then Ok (s, inl LNotYet) else Ok (s, @inr lerr (option drate) None)
+       end)
+      (match mget d m with
+       | Some r => if Qceqb r 0%Qc then Ok (fs0, inr None) else Ok (fs0, inr (Some (d, r)))
+       | None => if e_today (fe_env (no_fail e)) <=? d then Ok (fs0, inl FNotYet) else Ok (fs0, @inr ferr (option drate) None)
+       end)).
+  { intros s m fs0 E. cbn [no_fail fe_env].
+    destruct (mget d m) as [r |]; [destruct (Qceqb r 0%Qc) | destruct (e_today e <=? d)]; cbn [sim lift_sum lift_ans lift_err]; auto. }
+  assert (Hload : sim lift_sum
+    ('(s1, r) <- fetch e (f_s fs) d ;;
+     match r with
+     | inl err => Ok (s1, inl err)
+     | inr rates =>
+         Ok ({| s_years := (year_of d, rates) :: s_years s1; s_fresh := s_fresh s1;
+                s_cache := s_cache s1; s_dl := s_dl s1 |}, inr rates)
+     end)
+    ('(s1, r) <- fetchF (no_fail e) fs d ;;
+     match r with
+     | inl err => Ok (s1, inl err)
+     | inr rates => Ok (set_years s1 ((year_of d, rates) :: s_years (f_s s1)), inr rates)
+     end)).
+  { eapply sim_bind; [apply fetch_sim | ].
+    intros s a fs0 E. destruct a as [err | rates]; cbn [lift_sum lift_ans sim]; [auto | ].
+    split; [ | reflexivity ]. unfold set_years. cbn [f_s]. rewrite E. reflexivity. }
+  assert (Hfin : forall x y, sim lift_sum x y ->
+    sim lift_sum
+      ('(s1, r) <- x ;;
+       match r with
+       | inl err => Ok (s1, inl err)
+       | inr m =>
+           match mget d m with
+           | Some r0 => if Qceqb r0 0%Qc then Ok (s1, inr None) else Ok (s1, inr (Some (d, r0)))
+           | None => if e_today e <=? d then Ok (s1, inl LNotYet) else Ok (s1, inr None)
+           end
+       end)
+      ('(s1, r) <- y ;;
+       match r with
+       | inl err => Ok (s1, inl err)
+       | inr m =>
+           match mget d m with
+           | Some r0 => if Qceqb r0 0%Qc then Ok (s1, inr None) else Ok (s1, inr (Some (d, r0)))
+           | None => if e_today (fe_env (no_fail e)) <=? d then Ok (s1, inl FNotYet) else Ok (s1, inr None)
+           end
+       end)).
+  { intros x y S. eapply sim_bind; [exact S | ].
+    intros s a fs0 E. destruct a as [err | m]; cbn [lift_sum lift_ans]; [cbn [sim]; auto | ].
+    apply Htail. exact E. }
+  destruct (aget (year_of d) (s_years (f_s fs))) as [m |].
+  - destruct (negb (zmem (year_of d) (s_fresh (f_s fs))) && negb (mhas d m)).
+    + apply Hfin. exact Hload.
+    + apply (Hfin (Ok (f_s fs, inr m)) (Ok (fs, inr m))). cbn [sim lift_sum lift_ans]. auto.
+  - apply Hfin. exact Hload.
+Qed.
+
+Lemma lookback_sim e : forall n fs d,
+  sim lift_sum (lookback true n e (f_s fs) d) (lookbackF n (no_fail e) fs d).
+Proof.
+  induction n as [| k IH]; intros fs d; cbn [lookback lookbackF].
+  - cbn [sim lift_sum lift_ans lift_err]. auto.
+  - eapply sim_bind; [apply exact_sim | ].
+    intros s a fs0 E. destruct a as [err | [x |]]; cbn [lift_sum lift_ans lift_err sim]; auto.
+    rewrite <- E. apply IH.
+Qed.
+
+Lemma effective_sim e fs d :
+  sim lift_sum (effective true e (f_s fs) d) (effectiveF (no_fail e) fs d).
+Proof.
+  unfold effective, effectiveF. eapply sim_bind; [apply exact_sim | ].
+  intros s a fs0 E. destruct a as [err | [x |]]; cbn [lift_sum lift_ans lift_err sim]; auto.
+  rewrite <- E. apply lookback_sim.
+Qed.
+
+Lemma lookups_sim e : forall ds fs,
+  match lookups true e (f_s fs) ds, lookupsF (no_fail e) fs ds with
+  | Ok (s, a), Ok (fs', b) => f_s fs' = s /\ map fst b = map (@lift_ans drate) a
+  | Rej r, Rej r' => r = r'
+  | Panic p, Panic p' => p = p'
+  | _, _ => False
+  end.
+Proof.
+  induction ds as [| d t IH]; intros fs; cbn [lookups lookupsF]; [auto | ].
+  pose proof (effective_sim e fs d) as S.
+  destruct (effective true e (f_s fs) d) as [[s1 a] | r | p];
+    destruct (effectiveF (no_fail e) fs d) as [[fs1 b] | r' | p']; cbn [sim bind] in *; try contradiction; auto.
+  destruct S as [E ->]. specialize (IH fs1). rewrite E in IH.
+  destruct (lookups true e s1 t) as [[s2 a2] | r | p];
+    destruct (lookupsF (no_fail e) fs1 t) as [[fs2 b2] | r' | p']; cbn [bind] in *; try contradiction; auto.
+  destruct IH as [E2 M]. split; [exact E2 | ]. cbn [map fst]. rewrite M. reflexivity.
+Qed.
+
+Definition no_fail_run (r : env * list Z) : frun :=
+  {| fr_damage := []; fr_env := no_fail (fst r); fr_lookups := snd r |}.
+
+Lemma no_fail_history : forall runs fs,
+  match history true (f_s fs) runs, historyF fs (map no_fail_run runs) with
+  | Ok (s, outs), Ok (fs', fouts) =>
+      f_s fs' = s /\
+      map (fun o => map fst (fo_answers o)) fouts = map (fun o => map (@lift_ans drate) (fst o)) outs
+  | Rej r, Rej r' => r = r'
+  | Panic p, Panic p' => p = p'
+  | _, _ => False
+  end.
+Proof.
+  induction runs as [| [e ds] rest IH]; intros fs; cbn [history historyF map no_fail_run fst snd fr_env fr_damage fr_lookups]; [auto | ].
+  assert (Ed : damage_state [] (new_runF fs) = fstate_of (new_run (f_s fs))).
+  { unfold damage_state, new_runF. cbn [damage_cache fstate_of f_s f_nrd f_nwr f_nrq f_log].
+    destruct (new_run (f_s fs)); reflexivity. }
+  rewrite Ed.
+  pose proof (lookups_sim e ds (fstate_of (new_run (f_s fs)))) as S. cbn [fstate_of f_s] in S.
+  destruct (lookups true e (new_run (f_s fs)) ds) as [[s1 a] | r | p];
+    destruct (lookupsF (no_fail e) (fstate_of (new_run (f_s fs))) ds) as [[fs1 b] | r' | p'];
+    cbn [bind] in *; try contradiction; auto.
+  destruct S as [E M]. specialize (IH fs1). rewrite E in IH.
+  destruct (history true s1 rest) as [[s2 outs] | r | p];
+    destruct (historyF fs1 (map no_fail_run rest)) as [[fs2 fouts] | r' | p']; cbn [bind] in *; try contradiction; auto.
+  destruct IH as [E2 M2]. split; [exact E2 | ]. cbn [map fo_answers fst]. rewrite M, M2. reflexivity.
+Qed.
